@@ -53,3 +53,9 @@ pub fn sleep(_d: Duration) {
 pub fn available_parallelism() -> std::io::Result<NonZeroUsize> {
     Ok(NonZeroUsize::new(with(|e| e.knobs.parallelism).max(1)).unwrap())
 }
+
+/// A timed park may always return because of its timeout.
+pub fn park_timeout(_d: Duration) {
+    event(Ev::Park);
+    loom::thread::yield_now()
+}
